@@ -3,7 +3,8 @@
    Sets of variables are lists read up to membership; [amem t R] is membership up to assertion equality. *)
 From Coq Require Import List Bool Arith QArith Qcanon.
 From PV Require Import Base.Graph C08.Model C18.Model C18.Spec C18.ProofsSets C18.ProofsSound C18.ProofsComplete
-  C18.ProofsTerm C18.ProofsRefuted C18.ProofsEntails C18.ProofsGraph C18.ProofsJPD C18.ProofsDsep4 C18.ProofsDsep4Lift.
+  C18.ProofsTerm C18.ProofsRefuted C18.ProofsEntails C18.ProofsGraph C18.ProofsJPD C18.ProofsDsep4 C18.ProofsDsep4Lift
+  C18.VPDefs C18.ProofsVPA C18.ProofsVPRev C18.ProofsVPSim C18.ProofsVermaPearl.
 Import ListNotations.
 Local Open Scope nat_scope.
 
@@ -140,3 +141,69 @@ Theorem C18_minimal_imap_forward : forall cmp j order a b, In (a, b) (minimal_im
   exists i k, i < k /\ k < length order /\ nth i order 0 = a /\ nth k order 0 = b.
 Proof. exact minimal_imap_forward. Qed.
 Print Assumptions C18_minimal_imap_forward.
+
+(* ================================================================== Verma-Pearl, all DAGs (no size bound)
+   [dag g] = wf_graph g /\ acyclic g;  [same_nodes g h] = the same node set;
+   [same_dsep g h] = for all Z and all distinct nodes x, y outside Z:
+                     dconnected g Z x y <-> dconnected h Z x y   (C08's path-based d-connection). *)
+
+(* (A) DAGs that imply the same d-separation statements have the same skeleton and the same v-structures *)
+Theorem C18_same_dseparation_implies_markov_equivalent : forall g h,
+  dag g -> dag h -> same_nodes g h -> same_dsep g h -> markov_equivalent g h.
+Proof. intros g h Hg Hh Hn Hs. apply meq_spec. exact (same_dsep_meq g h Hg Hh Hn Hs). Qed.
+Print Assumptions C18_same_dseparation_implies_markov_equivalent.
+
+(* (B) DAGs with the same skeleton and the same v-structures have the same d-connection relation (for every
+   start node outside Z; the end node is arbitrary) *)
+Theorem C18_markov_equivalent_implies_same_dseparation : forall g h,
+  dag g -> dag h -> same_nodes g h -> markov_equivalent g h ->
+  forall Z s t, ~ In s Z -> (C08.Spec.dconnected g Z s t <-> C08.Spec.dconnected h Z s t).
+Proof. intros g h Hg Hh Hn Hm. apply meq_dconnected; assumption. Qed.
+Print Assumptions C18_markov_equivalent_implies_same_dseparation.
+
+(* the step of (B): reversing a covered edge (parents(y) = parents(x) + {x}) of a DAG gives a DAG with the same
+   skeleton, v-structures and d-connection statements; and two equivalent DAGs that differ always have one *)
+Theorem C18_covered_edge_reversal : forall g x y, dag g -> covered g x y ->
+  dag (rev_edge g x y) /\ markov_equivalent g (rev_edge g x y) /\
+  forall Z s t, ~ In s Z -> C08.Spec.dconnected g Z s t -> C08.Spec.dconnected (rev_edge g x y) Z s t.
+Proof.
+  intros g x y Hg Hc. pose proof (rev_covered_dag g x y Hg Hc) as Hd. split; [exact Hd|]. split.
+  - apply meq_spec. exact (rev_covered_meq g x y Hg Hc).
+  - exact (rev_covered_dconnected g x y Hg Hc Hd).
+Qed.
+Print Assumptions C18_covered_edge_reversal.
+Theorem C18_equivalent_dags_differ_by_covered_edge : forall g h, dag g -> dag h -> same_nodes g h ->
+  markov_equivalent g h -> (exists e, In e (edges g) /\ ~ In e (edges h)) ->
+  exists x y, In (x, y) (edges g) /\ ~ In (x, y) (edges h) /\ covered g x y.
+Proof. intros g h Hg Hh Hn Hm. apply find_covered; assumption. Qed.
+Print Assumptions C18_equivalent_dags_differ_by_covered_edge.
+
+(* hence: DAG.is_iequivalent (as modelled) is true exactly when the two DAGs imply the same independence
+   statements by d-separation *)
+Theorem C18_iequivalent_iff_same_dseparation : forall g h, dag g -> dag h -> same_nodes g h ->
+  (C18.Model.is_iequivalent g h = true <-> same_dsep g h).
+Proof. exact iequivalent_iff_same_dseparation. Qed.
+Print Assumptions C18_iequivalent_iff_same_dseparation.
+
+(* the hypotheses are satisfiable: chain 0 -> 1 -> 2 and fork 0 <- 1 -> 2 are equivalent DAGs, the collider is not *)
+Definition vp_chain : digraph := {| nodes := [0; 1; 2]; edges := [(0, 1); (1, 2)] |}.
+Definition vp_fork : digraph := {| nodes := [0; 1; 2]; edges := [(1, 0); (1, 2)] |}.
+Definition vp_coll : digraph := {| nodes := [0; 1; 2]; edges := [(0, 1); (2, 1)] |}.
+Example C18_verma_pearl_example :
+  dag vp_chain /\ dag vp_fork /\ dag vp_coll /\ same_nodes vp_chain vp_fork /\ same_nodes vp_chain vp_coll /\
+  same_dsep vp_chain vp_fork /\ ~ same_dsep vp_chain vp_coll /\ covered vp_chain 0 1.
+Proof.
+  assert (N : NoDup [0; 1; 2]) by (repeat constructor; simpl; intuition discriminate).
+  assert (D1 : dag vp_chain) by (apply vp_small_dag; [exact N|vm_compute; reflexivity|vm_compute; reflexivity]).
+  assert (D2 : dag vp_fork) by (apply vp_small_dag; [exact N|vm_compute; reflexivity|vm_compute; reflexivity]).
+  assert (D3 : dag vp_coll) by (apply vp_small_dag; [exact N|vm_compute; reflexivity|vm_compute; reflexivity]).
+  assert (S1 : same_nodes vp_chain vp_fork) by (intros n; reflexivity).
+  assert (S2 : same_nodes vp_chain vp_coll) by (intros n; reflexivity).
+  split; [exact D1|]. split; [exact D2|]. split; [exact D3|]. split; [exact S1|]. split; [exact S2|].
+  split; [|split].
+  - apply (C18_iequivalent_iff_same_dseparation vp_chain vp_fork D1 D2 S1). vm_compute. reflexivity.
+  - intros H. apply (C18_iequivalent_iff_same_dseparation vp_chain vp_coll D1 D3 S2) in H. vm_compute in H. discriminate.
+  - split; [simpl; left; reflexivity|]. split.
+    + intros p [H|[H|[]]]; inversion H.
+    + intros p [H|[H|[]]] Hp; inversion H; subst; contradiction.
+Qed.
